@@ -18,6 +18,9 @@ Rest == 0 - 1
 
 SrcLists == { <<Rest>>, <<1>>, <<2>>, <<3>>, <<7>>, <<4096>>, <<1, 2, 3, 7>>, <<0, 1>> }
 DstLists == { <<Rest>>, <<1>>, <<13>>, <<4096>> }
+\* token decoders write into a token buffer whose capacity is counted in tokens: 1, 2, 3 sit at and just above the
+\* decoders' documented minimum (json 1, cbor 2), where a chain is cut after every token or two
+TokDstLists == { <<Rest>>, <<1>>, <<2>>, <<3>>, <<13>> }
 SrcModes == {"view", "fresh"}          \* one growing window / a fresh exact-size window holding only unread bytes
 DstModes == {"grow", "compact"}        \* one growing window / flushed and compacted after every call
 WorkBufs == {"min", "max"}
@@ -77,7 +80,8 @@ Partition == /\ supplied <= n
 ListStr(p) == [i \in 1..Len(p) |-> p[i]]
 Export == PrintT(ToJson([classes |-> { [src |-> ListStr(c.src), srcmode |-> c.srcmode, dst |-> ListStr(c.dst),
                                          dstmode |-> c.dstmode, wb |-> c.wb, close |-> c.close, init |-> c.init,
-                                         prefill |-> c.prefill] : c \in Classes }]))
+                                         prefill |-> c.prefill] : c \in Classes },
+                        tokdst |-> { ListStr(p) : p \in TokDstLists }]))
 vars == <<n, plist, close, supplied, isClosed, step, offers>>
 ExportSpec == (Export /\ n = 0 /\ plist = <<Rest>> /\ close = "end" /\ supplied = 0 /\ isClosed = TRUE /\ step = 1 /\ offers = <<>>)
               /\ [][UNCHANGED vars]_vars
